@@ -155,7 +155,9 @@ class Thermal(_Simu):
 
         u = results["thermal"]
 
-        if self.algo == AlgoType.parabolic and "thermalDot" in results:
+        # the iteration holds what the time scheme active when it was saved carried, whatever the
+        # scheme active now
+        if "thermalDot" in results:
             v = results["thermalDot"]
         else:
             v = np.zeros_like(u)
